@@ -1,5 +1,5 @@
 CONSTANTS MaxIn = 2  MaxOut = 2
           CoinSet = {"BTC", "BCH", "BTG", "GRS"}
-          ScenarioIds = {1, 3, 4, 5, 8, 10}
+          ScenarioIds = {1, 3, 4, 5, 8, 12}
 SPECIFICATION Spec
 CHECK_DEADLOCK FALSE
